@@ -236,7 +236,7 @@ TYPES = {
     "list": list, "tuple": tuple, "set": set, "frozenset": frozenset, "dict": dict, "type": type, "object": object,
     "numbers.Number": numbers.Number, "Number": numbers.Number, "numbers.Real": numbers.Real, "numbers.Integral": numbers.Integral,
     "Sized": collections.abc.Sized, "Iterable": collections.abc.Iterable, "Iterator": collections.abc.Iterator, "Sequence": collections.abc.Sequence, "Mapping": collections.abc.Mapping,
-    "Collection": collections.abc.Collection, "Hashable": collections.abc.Hashable, "slice": slice, "AbstractSet": collections.abc.Set, "MutableSet": collections.abc.MutableSet,
+    "Collection": collections.abc.Collection, "Hashable": collections.abc.Hashable, "slice": slice, "staticmethod": staticmethod, "classmethod": classmethod, "property": property, "AbstractSet": collections.abc.Set, "MutableSet": collections.abc.MutableSet,
     "BaseException": BaseException, "Exception": Exception, "NoneType": type(None), "enum.Enum": enum.Enum, "Enum": enum.Enum,
     "GeneratorType": types.GeneratorType, "types.GeneratorType": types.GeneratorType, "Generator": collections.abc.Generator, "Container": collections.abc.Container,
     "Reversible": collections.abc.Reversible, "MutableSequence": collections.abc.MutableSequence, "MutableMapping": collections.abc.MutableMapping, "Set": collections.abc.Set,
@@ -250,13 +250,13 @@ PURE = {
     "math.floor": math.floor, "math.ceil": math.ceil, "math.isinf": math.isinf, "math.isnan": math.isnan, "math.isfinite": math.isfinite,
     "math.trunc": math.trunc, "math.copysign": math.copysign, "math.sqrt": math.sqrt, "math.fabs": math.fabs, "math.isclose": math.isclose,
     "math.log": math.log, "math.exp": math.exp, "isclass": lambda x: isinstance(x, type), "inspect.isclass": lambda x: isinstance(x, type),
-    "dict.fromkeys": dict.fromkeys, "itertools.chain": itertools.chain, "itertools.chain.from_iterable": itertools.chain.from_iterable, "set.intersection": set.intersection, "set.union": set.union, "cast": lambda _t, v: v, "typing.cast": lambda _t, v: v, "re.compile": re.compile, "re.fullmatch": re.fullmatch, "re.match": re.match, "re.search": re.search, "issubclass": issubclass, "dir": dir, "map": map, "filter": filter, "reversed": reversed, "iter": iter, "next": next, "dict": dict, "frozenset": frozenset, "getattr": getattr, "hasattr": hasattr, "id": id, "hex": hex,
+    "dict.fromkeys": dict.fromkeys, "itertools.chain": itertools.chain, "itertools.chain.from_iterable": itertools.chain.from_iterable, "set.intersection": set.intersection, "set.union": set.union, "cast": lambda _t, v: v, "typing.cast": lambda _t, v: v, "re.compile": re.compile, "re.fullmatch": re.fullmatch, "re.match": re.match, "re.search": re.search, "callable": callable, "issubclass": issubclass, "dir": dir, "map": map, "filter": filter, "reversed": reversed, "iter": iter, "next": next, "dict": dict, "frozenset": frozenset, "getattr": getattr, "hasattr": hasattr, "id": id, "hex": hex,
 }
 import builtins as _builtins  # noqa: E402
 
 CONSTS = {"NotImplemented": NotImplemented, "builtins": _builtins, "inf": math.inf, "math.inf": math.inf, "math.nan": math.nan, "math.pi": math.pi, "sys.float_info.min": sys.float_info.min,
           "sys.float_info.max": sys.float_info.max, "sys.float_info.epsilon": sys.float_info.epsilon, "sys.maxsize": sys.maxsize}
-STR_METHODS = {"startswith", "endswith", "lstrip", "rstrip", "strip", "lower", "upper", "split", "rpartition", "partition", "replace", "join",
+STR_METHODS = {"isidentifier", "isdigit", "isalpha", "isalnum", "isupper", "islower", "title", "capitalize", "startswith", "endswith", "lstrip", "rstrip", "strip", "lower", "upper", "split", "rpartition", "partition", "replace", "join",
                "removeprefix", "removesuffix", "decode", "encode", "isdigit", "format", "count", "find", "is_integer", "real", "imag", "hex", "bit_length",
                "conjugate", "as_integer_ratio", "get", "keys", "values", "items", "index", "copy", "union", "intersection", "issubset", "issuperset", "difference", "isdisjoint"}
 
